@@ -350,6 +350,13 @@ def _data_five(th):
     return [v for v in want.values() if v is not None]
 
 
+def data_mix(th):
+    """Row data for the row-independence block: one passing row and one failing exactly one threshold per threshold
+    (data_five) plus the same passing row without DNA-seq data."""
+    five = data_five(th)
+    return five + [(five[0][0], five[0][1], None)]
+
+
 def redi_positions(R):
     out = []
     for gene in R.genes:
@@ -390,6 +397,8 @@ def redi_combos(R, g, gene, block, tier, theta):
         return out
     if block == 'T':
         return [(tuple(sp), 0, [(g % 3, alt)], tot, gc) for (alt, tot, gc) in data_grid(theta)]
+    if block == 'X':
+        return [(tuple(sp), 0, [(g % 3, alt)], tot, gc) for (alt, tot, gc) in data_mix(theta)]
     if block == 'M':
         ca = theta[0]
         return [(tuple(sp), 0, [(0, c1), (1, c2)], 10 + c1 + c2, None if theta[3] == -1 else theta[3])
@@ -518,6 +527,8 @@ def redi_job(job):
     pos = redi_positions(R)
     combos = [redi_combos(R, g, gene, block, tier, theta) for g, gene in pos]
     out = dict(rows=0, calls=0, nontrivial=0, fails={}, undecided=0)
+    if block == 'X':
+        return redi_mix_job(R, refdir, theta, variant, vi, ti, pos, combos, d, out)
     for k in range(k0, min(k1, max(len(c) for c in combos))):
         entries = [(g, gene, c[k]) for (g, gene), c in zip(pos, combos) if len(c) > k]
         lines = [redi_row(R, g, gene, spec)[0] for g, gene, spec in entries]
@@ -550,6 +561,62 @@ def redi_job(job):
     return out
 
 
+def redi_mix_job(R, refdir, theta, variant, vi, ti, pos, combos, d, out):
+    """Row independence: what is written for a row may not depend on the other rows of the table.  Every row
+    (position j, data i) is run in a homogeneous file (all rows carry data i), in the rotated file s = (i - j) mod n
+    (neighbours carry the next / previous data) and in the counter-rotated file; the records of the row must agree."""
+    import shutil
+    n = len(data_mix(theta))
+    P = [(j, g, gene, c) for j, ((g, gene), c) in enumerate(zip(pos, combos)) if len(c) == n]
+
+    def run_file(pick, tag):
+        entries = [(g, gene, c[pick(j)]) for j, g, gene, c in P]
+        lines = [redi_row(R, g, gene, spec)[0] for g, gene, spec in entries]
+        res, recs = run_parse_redi(R, refdir, lines, theta, d, tag=tag)
+        out['calls'] += 1
+        out['rows'] += len(entries)
+        if not res['ok']:
+            return None, res
+        by = {}
+        for x in recs:
+            by.setdefault(x['attrs'].get('GENOMIC_POSITION'), []).append(
+                (x['chrom'], x['pos'], x['ref'], x['alt'], x['attrs'].get('TRANSCRIPT_ID')))
+        return {(j, pick(j)): sorted(by.get(f'{R.chrom}:{g + 1}', [])) for j, g, gene, c in P}, res
+    homo = {}
+    for i in range(n):
+        r, res = run_file(lambda j, i=i: i, 'h')
+        if r is None:
+            out['fails']['redi/mix/crash'] = [1, (vi, ti, 0, ''), dict(exc=res['exc'], theta=theta, variant=list(variant), block='X')]
+            shutil.rmtree(d, ignore_errors=True)
+            return out
+        homo.update(r)
+    for name, mk in (('rotated', lambda s: (lambda j: (j + s) % n)), ('counter-rotated', lambda s: (lambda j: (s - j) % n))):
+        for s in range(n):
+            r, res = run_file(mk(s), 'x')
+            if r is None:
+                out['fails'][f'redi/mix/crash/{name}'] = [1, (vi, ti, s, ''), dict(exc=res['exc'], theta=theta, variant=list(variant), block='X')]
+                continue
+            for (j, i), got in r.items():
+                if got or homo[(j, i)]:
+                    out['nontrivial'] += 1
+                if got != homo[(j, i)]:
+                    _, g, gene, c = P[j] if P[j][0] == j else next(x for x in P if x[0] == j)
+                    prev_i = mk(s)(j - 1) if j > 0 else None
+                    sig = sig_str(L.thr_ok(theta, c[i][2][0][1], c[i][3], c[i][4])[1])
+                    psig = sig_str(L.thr_ok(theta, c[prev_i][2][0][1], c[prev_i][3], c[prev_i][4])[1]) if prev_i is not None else 'first-row'
+                    key = f'redi/row-dependence/{sig}/after:{psig}'
+                    a = out['fails'].setdefault(key, [0, None, None])
+                    a[0] += 1
+                    o = (vi, ti, g, name)
+                    if a[1] is None or o < a[1]:
+                        a[1] = o
+                        a[2] = dict(g=g, gene=gene['gene_id'] if gene else None, spec=c[i], theta=theta, arrangement=name,
+                                    shift=s, alone_or_homogeneous=homo[(j, i)], mixed=got, variant=list(variant), block='X',
+                                    previous_row_data=list(c[prev_i][2:]) if prev_i is not None else None)
+    shutil.rmtree(d, ignore_errors=True)
+    return out
+
+
 ALL_THETAS = THETAS_QUICK + THETAS_MORE
 
 
@@ -567,8 +634,13 @@ def part_redi(run):
     for vi in vsel:
         R = L.make_ref(L.VARIANTS[vi])
         pos = redi_positions(R)
-        for block in ('P', 'N', 'T', 'M'):
+        for block in ('P', 'N', 'T', 'M', 'X'):
             tl = [ALL_THETAS.index(THETA_P)] if block in ('P', 'N') else thetas
+            if block == 'X':
+                for ti in ([ALL_THETAS.index(THETA_P)] if tier == 'quick' else [t for t in thetas if ALL_THETAS[t][3] >= 0]):
+                    jobs.append((vi, 'X', ti, tier, 0, 0))
+                    meta.append('X')
+                continue
             if block == 'T' and tier == 'quick' and vi not in (0, 1):
                 tl = thetas[:2]
             for ti in tl:
@@ -597,8 +669,8 @@ def part_redi(run):
         what = f'{n} row(s); minimal: ' + describe_redi(ex)
         run.violation(key, what, dict(kind='redi', **{k: v for k, v in ex.items()}))
     names = dict(P='redi-positions-x-transcript-lists', N='redi-listed-transcript-not-spanning',
-                 T='redi-threshold-lattice', M='redi-two-substitutions')
-    for b in ('P', 'N', 'T', 'M'):
+                 T='redi-threshold-lattice', M='redi-two-substitutions', X='redi-row-independence')
+    for b in ('P', 'N', 'T', 'M', 'X'):
         if b in per:
             run.block(names[b], per[b]['rows'], per[b]['nontrivial'], True, cli_calls=per[b]['calls'],
                       references=len(vsel), threshold_settings=1 if b in 'PN' else len(thetas))
@@ -621,7 +693,10 @@ def describe_redi(ex):
     th = ex['theta']
     return (f"reference {R.name}, thresholds alt>={th[0]} freq>={th[1]} rna>={th[2]} dna>={th[3]}; row: "
             f"{line!r}; {ex.get('symptom')} record (gene,POS,REF,ALT,tx)={ex.get('record')}; expected={ex.get('expected')} "
-            f"got={ex.get('got')} {ex.get('exc', '')}")
+            f"got={ex.get('got')} {ex.get('exc', '')}" +
+            (f" | row independence: records for this row alone / among equal rows = {ex.get('alone_or_homogeneous')}, in the "
+             f"{ex.get('arrangement')} table (previous row data (subs,total,gcov) = {ex.get('previous_row_data')}) = {ex.get('mixed')}"
+             if ex.get('block') == 'X' else ''))
 
 
 # =============================================================================================
@@ -648,6 +723,8 @@ def replay(path):
         spec = r['spec']
         spec = (tuple(spec[0]), spec[1], [tuple(x) for x in spec[2]], spec[3], spec[4])
         theta = tuple(r['theta'])
+        if r.get('block') == 'X':
+            return replay_mix(R, refdir, theta, r, d)
         line = redi_row(R, r['g'], gene, spec)[0]
         res, recs = run_parse_redi(R, refdir, [line], theta, d)
         print('row:', line)
@@ -657,6 +734,36 @@ def replay(path):
         print('got:', [(x['chrom'], x['pos'], x['ref'], x['alt'], x['attrs'].get('TRANSCRIPT_ID')) for x in recs])
         fl, _ = judge_redi(R, theta, [(r['g'], gene, spec)], recs)
         print('verdict:', [f[0] for f in fl] or 'ok')
+
+
+def replay_mix(R, refdir, theta, r, d):
+    """Row-independence case: the row alone, then inside the recorded arrangement of the table."""
+    pos = redi_positions(R)
+    combos = [redi_combos(R, g, gene, 'X', 'quick', theta) for g, gene in pos]
+    n = len(data_mix(theta))
+    P = [(j, g, gene, c) for j, ((g, gene), c) in enumerate(zip(pos, combos)) if len(c) == n]
+    s = r['shift']
+    pick = (lambda j: (j + s) % n) if r['arrangement'] == 'rotated' else (lambda j: (s - j) % n)
+    gene = R.gene[r['gene']] if r.get('gene') else None
+    j0 = next(j for j, g, _, _ in P if g == r['g'])
+    c0 = P[[x[0] for x in P].index(j0)][3]
+    line = redi_row(R, r['g'], gene, c0[pick(j0)])[0]
+    res1, recs1 = run_parse_redi(R, refdir, [line], theta, d, tag='one')
+    lines = [redi_row(R, g, gn, c[pick(j)])[0] for j, g, gn, c in P]
+    res2, recs2 = run_parse_redi(R, refdir, lines, theta, d, tag='mix')
+    gp = f'{R.chrom}:{r["g"] + 1}'
+    f = lambda recs: sorted((x['chrom'], x['pos'], x['ref'], x['alt'], x['attrs'].get('TRANSCRIPT_ID')) for x in recs
+                            if x['attrs'].get('GENOMIC_POSITION') == gp)
+    print('thresholds:', theta)
+    print('row:', line)
+    k = lines.index(line)
+    print('previous row in the table:', lines[k - 1] if k else None)
+    print('records for the row alone      :', f(recs1))
+    print('records for the row in the table:', f(recs2), f'({len(lines)} rows, arrangement {r["arrangement"]} shift {s})')
+    bad = f(recs1) != f(recs2)
+    print('verdict:', 'row-dependence' if bad else 'ok')
+    if bad:
+        sys.exit(1)
 
 
 def main():
